@@ -458,12 +458,14 @@ def wide_entries(acc, tier):
 
 def odd_keys(acc):
     """Field keys that merely resemble the reserved names (substrings, other case, empty) are ordinary keys."""
-    odd = ["TYPE", "ENTRY", "I", "D", "", "Id", "entrytype", "ENTRYTYPE ", "ID2", "type"]
+    odd = ["TYPE", "ENTRY", "I", "D", "", "Id", "entrytype", "ENTRYTYPE ", "ID2", "type", "%", "%s", "100%", "{0}", "{}", "a}", "k.d+", "\\1", "a|b"]
     for k in odd:
-        for other in ("title", "ID2"):
-            e = Entry("techreport", "key1", [])
+        for other, (etype, ekey) in (("title", ("techreport", "key1")), ("ID2", ("techreport", "key1")), ("title", ("", "")), ("ID", ("0", "0"))):
+            e = Entry(etype, ekey, [])
             d = {}
-            ops = [("set_field", k, "v1"), ("getitem", k), ("in", k), ("get", k), ("setitem", other, "o"), ("getitem", k), ("items",), ("fields_dict",), ("type",), ("id",), ("pop", k), ("getitem", k), ("in", k), ("del", other)]
+            ops = [("set_field", k, "v1"), ("getitem", k), ("in", k), ("get", k), ("setitem", other, "o"), ("getitem", k), ("items",), ("fields_dict",), ("type",), ("id",), ("pop", k), ("getitem", k), ("in", k), ("popd", k), ("get", k), ("del", k), ("del", other), ("type",), ("id",)]
+            if other == "ID":
+                ops = [op for op in ops if op[0] not in ("setitem", "del") or op[1] != "ID"]  # (reserved names are outside the property)
             hist = []
             for op in ops:
                 acc.trace()
